@@ -91,6 +91,9 @@ StepClauses(rf1) ==
   When(anyUp /\ (anyFailed \/ ~served \/ ~E.created), "refresh_succeeds_if_any_answers")
   \cup When(served /\ (\E j \in DOMAIN E.results : ~Failed(E.results[j]) /\ ~ReportedOk(E.resps[E.serves[Len(E.serves)]], E.results[j])),
            "topic_error_class")
+  \* the application asked for a FULL refresh (no topics named): every answer it was given must be the answer to
+  \* "all topics" - the responder reads the raw request: a null topics array (v1+) / an empty one (v0)
+  \cup When(E.req = <<>> /\ (\E j \in DOMAIN E.serves : ~E.resps[E.serves[j]].full), "full_refresh_asks_for_all_topics")
   \cup When(fam = "conc" /\ E.k > 0 /\ (Len(E.serves) # 1 \/ ConcBad(ref, rf1)), "read_is_before_or_after")
 
 Init == /\ l = 1 /\ viol = {} /\ ref = RefInit /\ degraded = FALSE /\ fam = "" /\ ver = ""
